@@ -130,4 +130,229 @@ theorem sem_best {b : Expr} (hfb : Frag b)
 
 end
 
+
+/-! ### store-dependent operators, sets, lists of sub-expressions -/
+
+theorem applyBinary_DRT' {es : Entities} (hstore : StoreDRT es) {op : BinaryOp} {v1 v2 w : Value}
+    (h : applyBinary es op v1 v2 = .ok w) : w.DRT := by
+  cases hop : op.storeFree with
+  | true => exact applyBinary_DRT hop h
+  | false =>
+    cases op <;> simp [BinaryOp.storeFree] at hop <;> simp only [applyBinary, bind, Except.bind] at h
+    · cases h1 : v1.asEntity <;> simp only [h1] at h
+      · cases h
+      · split at h
+        · cases h; trivial
+        · split at h
+          · cases h
+          · cases h; trivial
+        · cases h
+    · cases h1 : v1.asEntity <;> simp only [h1] at h
+      · cases h
+      · cases h2 : v2.asString <;> simp only [h2] at h
+        · cases h
+        · rename_i u t
+          cases hf : es.find? u <;> simp only [hf] at h
+          · cases h
+          · rename_i d
+            cases hl : lookupKV d.tags t <;> simp only [hl] at h
+            · cases h
+            · cases h; exact (hstore u d hf).2 t _ hl
+    · cases h1 : v1.asEntity <;> simp only [h1] at h
+      · cases h
+      · cases h2 : v2.asString <;> simp only [h2] at h
+        · cases h
+        · split at h <;> (cases h; trivial)
+
+/-- no two elements equal modulo `Value.beq` -/
+def NoDupB : List Value → Prop
+  | [] => True
+  | v :: vs => Value.elem v vs = false ∧ NoDupB vs
+
+theorem mkSet_noDup (vs : List Value) : NoDupB (Value.mkSet vs) := by
+  induction vs with
+  | nil => trivial
+  | cons v vs ih =>
+    simp only [Value.mkSet]
+    cases he : Value.elem v (Value.mkSet vs) with
+    | true => simpa using ih
+    | false => simp only [Bool.false_eq_true, if_false]; exact ⟨he, ih⟩
+
+theorem mkSet_of_noDup {ws : List Value} (h : NoDupB ws) : Value.mkSet ws = ws := by
+  induction ws with
+  | nil => rfl
+  | cons w ws ih =>
+    simp only [Value.mkSet, ih h.2, h.1, Bool.false_eq_true, if_false]
+
+theorem mkSet_idem (vs : List Value) : Value.mkSet (Value.mkSet vs) = Value.mkSet vs :=
+  mkSet_of_noDup (mkSet_noDup vs)
+
+theorem mem_mkSet {w : Value} {vs : List Value} (h : w ∈ Value.mkSet vs) : w ∈ vs := by
+  induction vs with
+  | nil => simp [Value.mkSet] at h
+  | cons v vs ih =>
+    simp only [Value.mkSet] at h
+    split at h
+    · exact List.mem_cons_of_mem _ (ih h)
+    · rcases List.mem_cons.mp h with rfl | h
+      · exact List.mem_cons_self ..
+      · exact List.mem_cons_of_mem _ (ih h)
+
+theorem collect_toExprList (f : Expr → PRes) (ws : List Value)
+    (h : ∀ w, w ∈ ws → f w.toExpr = .fuel ∨ f w.toExpr = .val w) :
+    collectPV f (Value.toExprList ws) = .error .fuel ∨
+    collectPV f (Value.toExprList ws) = .ok (ws.map PartialValue.value) := by
+  induction ws with
+  | nil => right; rfl
+  | cons w ws ih =>
+    simp only [Value.toExprList, collectPV]
+    rcases h w (List.mem_cons_self ..) with hw | hw
+    · left; rw [hw]
+    · rw [hw]
+      rcases ih (fun w' hw' => h w' (List.mem_cons_of_mem _ hw')) with hc | hc
+      · left; rw [hc]; rfl
+      · right; rw [hc]; rfl
+
+/-- a canonical set of round-tripping values round-trips -/
+theorem RT_set {ws : List Value} (h : ∀ w, w ∈ ws → RT w) (hid : Value.mkSet ws = ws) : RT (.set ws) := by
+  intro m req es env n
+  cases n with
+  | zero => left; simp [pinterp]
+  | succ n =>
+    simp only [Value.toExpr, pinterp]
+    rcases collect_toExprList (pinterp m req es env n) ws (fun w hw => h w hw m req es env n) with hc | hc
+    · left; rw [hc]
+    · right; rw [hc]; simp [splitPV_values, hid]
+
+theorem evaluateList_error_of_mem {req : Request} {es : Entities} {env : SlotEnv} {xs : List Expr} {x : Expr}
+    (hx : x ∈ xs) {c : ErrClass} (he : evaluate req es env x = .error c) : ∃ c', evaluateList req es env xs = .error c' := by
+  induction xs with
+  | nil => cases hx
+  | cons y ys ih =>
+    simp only [evaluateList]
+    rcases List.mem_cons.mp hx with rfl | hx
+    · rw [he]; exact ⟨c, rfl⟩
+    · cases evaluate req es env y with
+      | error c1 => exact ⟨c1, rfl⟩
+      | ok v =>
+        obtain ⟨c', hc'⟩ := ih hx
+        rw [hc']; exact ⟨c', rfl⟩
+
+theorem splitPV_inl {pvs : List PartialValue} {vs : List Value} (h : splitPV pvs = .inl vs) :
+    pvs = vs.map PartialValue.value := by
+  induction pvs generalizing vs with
+  | nil => simp [splitPV] at h; subst h; rfl
+  | cons pv pvs ih =>
+    cases pv with
+    | residual e => simp [splitPV] at h
+    | value v =>
+      simp only [splitPV] at h
+      cases hs : splitPV pvs with
+      | inr es => rw [hs] at h; cases h
+      | inl ws => rw [hs] at h; cases h; simp [ih hs]
+
+theorem splitPV_inr {pvs : List PartialValue} {rs : List Expr} (h : splitPV pvs = .inr rs) :
+    rs = pvs.map PartialValue.asExpr := by
+  induction pvs generalizing rs with
+  | nil => simp [splitPV] at h
+  | cons pv pvs ih =>
+    cases pv with
+    | residual e => simp only [splitPV] at h; cases h; rfl
+    | value v =>
+      simp only [splitPV] at h
+      cases hs : splitPV pvs with
+      | inl ws => rw [hs] at h; cases h
+      | inr es => rw [hs] at h; cases h; simp [PartialValue.asExpr, ih hs]
+
+section
+variable (σ : Mapper) (req : Request) (es : Entities) (env : SlotEnv)
+
+/-- a collected partial value stands for its sub-expression -/
+def PVRel (pv : PartialValue) (x : Expr) : Prop :=
+  match pv with
+  | .value v => evaluate req es env x = .ok v ∧ v.DRT
+  | .residual r => ∀ n', Sem (pinterp σ (.ofConcrete req) (.ofConcrete es) env n' r) (evaluate req es env x)
+
+/-- first pass over a list of sub-expressions, each of which is interpreted soundly -/
+theorem collect_sound (go : Expr → PRes) (xs : List Expr)
+    (h : ∀ x, x ∈ xs → Sound σ req es env (evaluate req es env x) (go x)) :
+    match collectPV go xs with
+    | .error r => r = .fuel ∨ r = .panic ∨ (∃ c, r = .err c ∧ ∃ c', evaluateList req es env xs = .error c')
+    | .ok pvs => ListRel (PVRel σ req es env) pvs xs := by
+  induction xs with
+  | nil => exact .nil
+  | cons x xs ih =>
+    have ih' := ih (fun y hy => h y (List.mem_cons_of_mem _ hy))
+    have hx := h x (List.mem_cons_self ..)
+    simp only [collectPV]
+    cases hgx : go x with
+    | fuel => exact Or.inl rfl
+    | panic => exact Or.inr (Or.inl rfl)
+    | err c =>
+      rw [hgx] at hx
+      obtain ⟨c', hc'⟩ := hx
+      exact Or.inr (Or.inr ⟨c, rfl, c', by simp [evaluateList, hc']⟩)
+    | val v =>
+      rw [hgx] at hx
+      simp only
+      cases hc : collectPV go xs with
+      | error r =>
+        rw [hc] at ih'
+        simp only [Except.map]
+        rcases ih' with h1 | h1 | ⟨c, h1, c', h2⟩
+        · exact Or.inl h1
+        · exact Or.inr (Or.inl h1)
+        · exact Or.inr (Or.inr ⟨c, h1, c', by simp [evaluateList, hx.1, h2]⟩)
+      | ok pvs =>
+        rw [hc] at ih'
+        simp only [Except.map]
+        exact .cons hx ih'
+    | res r =>
+      rw [hgx] at hx
+      simp only
+      cases hc : collectPV go xs with
+      | error r0 =>
+        rw [hc] at ih'
+        simp only [Except.map]
+        rcases ih' with h1 | h1 | ⟨c, h1, c', h2⟩
+        · exact Or.inl h1
+        · exact Or.inr (Or.inl h1)
+        · refine Or.inr (Or.inr ⟨c, h1, ?_⟩)
+          cases hev : evaluate req es env x with
+          | error c3 => exact ⟨c3, by simp [evaluateList, hev]⟩
+          | ok v => exact ⟨c', by simp [evaluateList, hev, h2]⟩
+      | ok pvs =>
+        rw [hc] at ih'
+        simp only [Except.map]
+        exact .cons hx.2.2 ih'
+
+theorem pvrel_values {vs : List Value} {xs : List Expr} (h : ListRel (PVRel σ req es env) (vs.map PartialValue.value) xs) :
+    evaluateList req es env xs = .ok vs ∧ ∀ v, v ∈ vs → v.DRT := by
+  induction vs generalizing xs with
+  | nil => cases h; exact ⟨rfl, by simp⟩
+  | cons v vs ih =>
+    cases h with
+    | cons h1 h2 =>
+      obtain ⟨he, hd⟩ := ih h2
+      refine ⟨by simp [evaluateList, h1.1, he], ?_⟩
+      intro w hw
+      rcases List.mem_cons.mp hw with rfl | hw
+      · exact h1.2
+      · exact hd w hw
+
+theorem pvrel_asExpr {pvs : List PartialValue} {xs : List Expr} (h : ListRel (PVRel σ req es env) pvs xs) :
+    ListRel (fun r x => ∀ n, Sem (pinterp σ (.ofConcrete req) (.ofConcrete es) env n r) (evaluate req es env x))
+      (pvs.map PartialValue.asExpr) xs := by
+  induction h with
+  | nil => exact .nil
+  | @cons pv x pvs xs h1 _ ih =>
+    refine .cons ?_ ih
+    cases pv with
+    | value v =>
+      obtain ⟨he, hd⟩ := h1
+      rw [he]; exact sem_toExpr hd _ _ _ _
+    | residual r => exact h1
+
+end
+
 end Cedar
